@@ -329,6 +329,10 @@ func (s *session) SetID(newID string) {
 	hub := s.peer.sessHub
 	hub.set(s)
 	hub.delete(oldID)
+	if s.checkStatus(statusActiveClosing, statusActiveClosed, statusPassiveClosing, statusPassiveClosed) {
+		// the session is closed or closing (maybe concurrently): it must not be listed
+		hub.deleteSession(s)
+	}
 	Tracef("session changes id: %s -> %s", oldID, newID)
 }
 
